@@ -100,7 +100,12 @@ def _reduction(name):
         style = ch.choose("style", ["kw", "pos"] if axis is not None else ["kw"])
         form = ch.choose("form", ["func", "method"] if (name in METHODS and kind == "arr") else ["func"])
         args = []
-        if axis is not None:
+        atype = ch.choose("axis_type", ["int", "np.int64"]) if (isinstance(axis, int) and nd >= 2 and kd is None) else "int"
+        ns, pre = {}, ""
+        if atype != "int":
+            ns, pre = dict(AXV=onp.int64(axis)), "AXV = onp.int64(%d)" % axis
+            args.append("AXV" if style == "pos" else "axis=AXV")
+        elif axis is not None:
             args.append(("%r" if style == "pos" else "axis=%r") % (axis,))
         if kd is not None:
             args.append("keepdims=%r" % kd)
@@ -109,8 +114,8 @@ def _reduction(name):
         expr = ("np.%s(x%s)" % (name, (", " + a) if a else "")) if form == "func" else ("x.%s(%s)" % (name, a))
         x = T.arr(shape, 0.3, 1.7, kind)
         feat = dict(rank=nd, axis_sign=A.sign_of(axis), keepdims=kd, form=form, style=style, kind=kind,
-                    reduced_size=_rsize(shape, axis))
-        return Case(name, expr, dict(x=x), feat, family="R")
+                    reduced_size=_rsize(shape, axis), axis_type=atype)
+        return Case(name, expr, dict(x=x), feat, family="R", ns=ns, pre=pre)
     return s
 
 
@@ -141,10 +146,19 @@ def s_cumsum(ch, T):
     axis = ch.choose("axis", [None] + A.int_axes(nd))
     style = ch.choose("style", ["kw", "pos"] if axis is not None else ["kw"])
     form = ch.choose("form", ["func", "method"] if kind == "arr" else ["func"])
-    a = "" if axis is None else (("%r" if style == "pos" else "axis=%r") % axis)
+    # an axis computed by the caller is often a NumPy integer or a 0-d integer array rather than a Python int
+    atype = ch.choose("axis_type", ["int", "np.int64", "0d-array"]) if (axis is not None and nd >= 2) else "int"
+    ns, pre = {}, ""
+    if atype != "int":
+        ns = dict(AXV=(onp.int64(axis) if atype == "np.int64" else onp.array(axis)))
+        pre = "AXV = %s" % ("onp.int64(%d)" % axis if atype == "np.int64" else "onp.array(%d)" % axis)
+        a = "AXV" if style == "pos" else "axis=AXV"
+    else:
+        a = "" if axis is None else (("%r" if style == "pos" else "axis=%r") % axis)
     expr = ("np.cumsum(x%s)" % ((", " + a) if a else "")) if form == "func" else "x.cumsum(%s)" % a
-    return Case("cumsum", expr, dict(x=T.arr(shape, kind=kind)), dict(rank=nd, axis_sign=A.sign_of(axis), form=form, kind=kind,
-                                                                    axis=("none" if axis is None else ("zero" if axis == 0 else "nonzero"))), family="R")
+    return Case("cumsum", expr, dict(x=T.arr(shape, kind=kind)), dict(rank=nd, axis_sign=A.sign_of(axis), form=form, kind=kind, axis_type=atype,
+                                                                    axis=("none" if axis is None else ("zero" if axis == 0 else "nonzero"))), family="R",
+                ns=ns, pre=pre)
 
 
 @spec("power_special_exponent", "B")
